@@ -6,6 +6,7 @@ Import ListNotations.
 Local Open Scope N_scope.
 
 Arguments followups_ok : simpl never.
+Arguments Nat.ltb : simpl never.
 Arguments tags_lt : simpl never.
 Arguments id_bound : simpl never.
 
@@ -180,16 +181,16 @@ Proof.
     pose proof H as H0. destruct H0 as [Hp Ht Hb Hi Hf Hpa He Hd Hpn].
     destruct s as [cp ep nx q dr en cl p ex pe clm wi pa res pn]. unfold phase_inv in Hp. cbn in *.
     destruct p; try exact H. destruct Hp as (Hw & Hq & Hdr & Hnx & Hen). subst.
-    destruct ok; constructor; cbn; try assumption.
+    destruct ok; constructor; cbn; try assumption; try reflexivity.
     + unfold phase_inv; cbn. repeat split; reflexivity.
     + unfold phase_inv; cbn. repeat split; reflexivity.
     + rewrite accepts_conns_snoc, Hpa. reflexivity.
-    + rewrite conns_epoch_snoc. cbn. reflexivity.
+    + rewrite conns_epoch_snoc. reflexivity.
   - (* AEnable *)
     pose proof H as H0. destruct H0 as [Hp Ht Hb Hi Hf Hpa He Hd Hpn].
     destruct s as [cp ep nx q dr en cl p ex pe clm wi pa res pn]. unfold phase_inv in Hp. cbn in *.
     destruct p; try exact H. destruct Hp as (Hw & Hq & Hdr & Hnx & Hen). subst.
-    constructor; cbn; try assumption.
+    constructor; cbn; try assumption; try reflexivity.
     + unfold phase_inv, run_inv, inflight, base; cbn. exists []. repeat split; try reflexivity; constructor.
     + intros _. constructor.
   - (* AWClaim *)
@@ -201,7 +202,7 @@ Proof.
     unfold run_inv, inflight, base in Hp; cbn in Hp.
     destruct Hp as (w & Hw & Ha & Hc & Hal & Hfo & _).
     rewrite N.add_0_r in Hal. apply aligned_claim in Hal; [| reflexivity]. destruct Hal as [Hal Hc0].
-    constructor; cbn; try assumption.
+    constructor; cbn; try assumption; try reflexivity.
     + unfold phase_inv, run_inv, inflight, base; cbn. exists w. repeat split; assumption.
     + intros Hen. eapply drops_le_tail. apply Hd. assumption.
   - (* AWWriteDropped *)
@@ -210,7 +211,7 @@ Proof.
     destruct p; try exact H. destruct clm as [[f c] |]; try exact H.
     unfold run_inv, inflight, base in Hp; cbn in Hp.
     destruct Hp as (w & Hw & Ha & Hc & Hal & Hfo & Hf0 & Hc0). subst wi.
-    constructor; cbn; try assumption.
+    constructor; cbn; try assumption; try reflexivity.
     unfold phase_inv, run_inv, inflight, base; cbn. exists (w ++ [FDropped c]).
     split; [reflexivity |]. split; [| split; [| split; [| split; [assumption | exact I]]]].
     + apply accepts_frames_snoc; [assumption | reflexivity].
@@ -220,8 +221,7 @@ Proof.
     pose proof H as H0. destruct H0 as [Hp Ht Hb Hi Hf Hpa He Hd Hpn].
     destruct s as [cp ep nx q dr en cl p ex pe clm wi pa res pn]. unfold phase_inv in Hp. cbn in *.
     destruct p; try exact H. destruct pe as [e0 |]; try exact H. destruct q as [| e q]; try exact H.
-    constructor; cbn; try assumption.
-    unfold phase_inv, run_inv, inflight, base in *; cbn in *. exact Hp.
+    constructor; cbn; try assumption; try reflexivity.
   - (* AWWriteEvent *)
     pose proof H as H0. destruct H0 as [Hp Ht Hb Hi Hf Hpa He Hd Hpn].
     destruct s as [cp ep nx q dr en cl p ex pe clm wi pa res pn]. unfold phase_inv in Hp. cbn in *.
@@ -232,7 +232,7 @@ Proof.
     destruct Hp as (w & Hw & Ha & Hc & Hal & Hfo & _). subst wi.
     rewrite N.add_0_r in Hal. apply aligned_write in Hal; [| assumption].
     inversion Hfo as [| e' l' Heo Hfo']; subst.
-    constructor; cbn; try assumption.
+    constructor; cbn; try assumption; try reflexivity.
     unfold phase_inv, run_inv, inflight, base; cbn. exists (w ++ [FEvent (e_tag e) (e_par e)]).
     split; [reflexivity |]. split; [| split; [| split; [| split; [assumption | exact I]]]].
     + apply accepts_frames_snoc; [assumption |].
@@ -244,21 +244,21 @@ Proof.
     pose proof H as H0. destruct H0 as [Hp Ht Hb Hi Hf Hpa He Hd Hpn].
     destruct s as [cp ep nx q dr en cl p ex pe clm wi pa res pn]. unfold phase_inv in Hp. cbn in *.
     destruct p; try exact H.
-    constructor; cbn; try assumption.
+    constructor; cbn; try assumption; try reflexivity.
     unfold phase_inv, run_inv, wire_done in *; cbn in *.
     destruct Hp as (w & Hw & Ha & _). exists w. split; assumption.
   - (* ADisable *)
     pose proof H as H0. destruct H0 as [Hp Ht Hb Hi Hf Hpa He Hd Hpn].
     destruct s as [cp ep nx q dr en cl p ex pe clm wi pa res pn]. unfold phase_inv in Hp. cbn in *.
     destruct p; try exact H.
-    constructor; cbn; try assumption.
+    constructor; cbn; try assumption; try reflexivity.
     + unfold phase_inv; cbn. split; [exact Hp | reflexivity].
     + discriminate.
   - (* ABump *)
     pose proof H as H0. destruct H0 as [Hp Ht Hb Hi Hf Hpa He Hd Hpn].
     destruct s as [cp ep nx q dr en cl p ex pe clm wi pa res pn]. unfold phase_inv in Hp. cbn in *.
     destruct p; try exact H. destruct Hp as [(w & Hw & Ha) Hen]. subst.
-    constructor; cbn; try assumption.
+    constructor; cbn; try assumption; try reflexivity.
     + unfold phase_inv; cbn. repeat split; reflexivity.
     + apply (id_bound_weaken (conns_epoch 1 pa, nx)); [assumption | cbn; lia].
     + rewrite accepts_conns_snoc, Hpa. cbn. rewrite Ha. reflexivity.
@@ -268,13 +268,13 @@ Proof.
     pose proof H as H0. destruct H0 as [Hp Ht Hb Hi Hf Hpa He Hd Hpn].
     destruct s as [cp ep nx q dr en cl p ex pe clm wi pa res pn]. unfold phase_inv in Hp. cbn in *.
     destruct p; try exact H. destruct Hp as (Hw & Hnx & Hen). subst.
-    constructor; cbn; try assumption.
+    constructor; cbn; try assumption; try reflexivity.
     + unfold phase_inv; cbn. repeat split; reflexivity.
     + discriminate.
   - (* AClose *)
     pose proof H as H0. destruct H0 as [Hp Ht Hb Hi Hf Hpa He Hd Hpn].
     destruct s as [cp ep nx q dr en cl p ex pe clm wi pa res pn]. unfold phase_inv in Hp. cbn in *.
-    constructor; cbn; try assumption.
+    constructor; cbn; try assumption; try reflexivity.
     + unfold phase_inv, run_inv, wire_done, inflight, base in *; cbn in *.
       destruct p; intuition auto.
     + discriminate.
